@@ -3,7 +3,7 @@
 properties whose check does not exit 0 together with the violation keys.  Scratch copy removed afterwards."""
 import glob, json, os, shutil, subprocess, sys, tempfile
 
-PROPS = [f"C{i:02d}" for i in range(1, 21)]
+PROPS = (os.environ.get("VERIF_PROPS") or " ".join(f"C{i:02d}" for i in range(1, 21))).split()
 
 
 def one(diff):
